@@ -129,6 +129,16 @@ func main() {
 	}
 
 	prop := rules.Properties[*property]
+	if *property == "ALL" {
+		// self-test convenience: every registered rule once, no evidence
+		var ids []string
+		for id := range rules.Registry {
+			ids = append(ids, id)
+		}
+		sort.Strings(ids)
+		prop = &rules.Property{ID: "ALL", Title: "all rules", Rules: ids}
+		*noEvidence = true
+	}
 	if prop == nil {
 		fmt.Fprintf(os.Stderr, "unknown property %q; use -list\n", *property)
 		os.Exit(2)
